@@ -1,5 +1,6 @@
 (* Theorems about model/Datetime.v: interval semantics of date literals at each precision,
-   relative days, format/parse round trip, and the algebra of the eight comparison operators. *)
+   relative days, format/parse round trip, the algebra of the eight comparison operators, and
+   the absence of panics (every unwrap site of parse_datetime is unreachable). *)
 From Coq Require Import String ZArith NArith List Lia Bool.
 From FS Require Import lib.Str lib.Res lib.Civil model.Datetime.
 Import ListNotations.
@@ -21,7 +22,13 @@ Proof.
 Qed.
 
 Lemma is_digit_is_nd c : is_digit c = true -> is_nd c = true.
-Proof. intros H. unfold is_nd. now rewrite H. Qed.
+Proof. intros H. exact H. Qed.
+
+(* the class [0-9] of DATE_REGEX is exactly the ASCII digits *)
+Lemma is_nd_range c : is_nd c = true <-> (48 <= c <= 57)%N.
+Proof.
+  unfold is_nd, is_digit. rewrite andb_true_iff, !N.leb_le. tauto.
+Qed.
 
 Lemma is_nd_dchar k : 0 <= k <= 9 -> is_nd (dchar k) = true.
 Proof. intros Hk. apply is_digit_is_nd, is_digit_dchar, Hk. Qed.
@@ -35,7 +42,7 @@ Proof.
   apply N.leb_le in H1, H2. lia.
 Qed.
 
-(* a run of exactly n `\d` characters *)
+(* a run of exactly n `[0-9]` characters *)
 Definition digits_n (n : nat) (l : str) : Prop :=
   length l = n /\ Forall (fun c => is_nd c = true) l.
 
@@ -444,6 +451,183 @@ Proof.
 Qed.
 
 (* ------------------------------------------------------------------------- *)
+(* parse_datetime never panics                                               *)
+(* ------------------------------------------------------------------------- *)
+
+Definition all_digits (g : str) : Prop := Forall (fun c => is_digit c = true) g.
+
+(* a participating capture group: a non-empty run of at most n ASCII digits *)
+Definition good (n : nat) (g : str) : Prop := g <> [] /\ (length g <= n)%nat /\ all_digits g.
+Definition good_opt (g : option str) : Prop := match g with Some ds => good 2 ds | None => True end.
+Definition good_caps (c : caps) : Prop :=
+  good 4 (c_year c) /\ good 2 (c_month c) /\ good 2 (c_day c)
+  /\ good_opt (c_hour c) /\ good_opt (c_min c) /\ good_opt (c_sec c).
+
+(* whatever the input, a run taken by the scanner consists of at most n ASCII digits *)
+Lemma take_digits_digits n : forall l,
+  all_digits (fst (take_digits n l)) /\ (length (fst (take_digits n l)) <= n)%nat.
+Proof.
+  induction n as [|n IH]; intros l.
+  - rewrite take_digits_zero. split; [constructor|cbn [fst length]; lia].
+  - destruct l as [|c r]; [split; [constructor|cbn [take_digits fst length]; lia]|]. cbn [take_digits].
+    destruct (is_nd c) eqn:D.
+    + destruct (IH r) as [F L]. destruct (take_digits n r) as [ds rest]. cbn [fst length] in *.
+      split; [constructor; [exact D|exact F]|lia].
+    + split; [constructor|cbn [fst length]; lia].
+Qed.
+
+Lemma opt_group_good l : good_opt (fst (opt_group l)).
+Proof.
+  unfold opt_group. destruct (take_digits_digits 2 l) as [F L].
+  destruct (take_digits 2 l) as [ds rest]. cbn [fst] in *.
+  destruct ds as [|d ds]; [exact I|]. split; [discriminate|]. split; assumption.
+Qed.
+
+Lemma scan_time_good l :
+  let '(h, mi, se) := scan_time l in good_opt h /\ good_opt mi /\ good_opt se.
+Proof.
+  unfold scan_time.
+  pose proof (opt_group_good (opt_char 32 l)) as G1. destruct (opt_group (opt_char 32 l)) as [h r1].
+  pose proof (opt_group_good (opt_char 58 r1)) as G2. destruct (opt_group (opt_char 58 r1)) as [mi r2].
+  pose proof (opt_group_good (opt_char 58 r2)) as G3. destruct (opt_group (opt_char 58 r2)) as [se r3].
+  cbn [fst] in *. now repeat split.
+Qed.
+
+Lemma match_at_good l c : match_at l = Some c -> good_caps c.
+Proof.
+  unfold match_at.
+  destruct (take_digits_digits 4 l) as [Fy Ly]. destruct (take_digits 4 l) as [yd r1]. cbn [fst] in *.
+  destruct (Nat.eqb_spec (length yd) 4) as [Ey|]; [|discriminate].
+  destruct r1 as [|c1 r2]; [discriminate|]. destruct (is_sep c1); [|discriminate].
+  destruct (take_digits_digits 2 r2) as [Fm Lm]. destruct (take_digits 2 r2) as [md r3]. cbn [fst] in *.
+  destruct md as [|m0 md]; [discriminate|]. destruct r3 as [|c2 r4]; [discriminate|].
+  destruct (is_sep c2); [|discriminate].
+  destruct (take_digits_digits 2 r4) as [Fd Ld]. destruct (take_digits 2 r4) as [dd r5]. cbn [fst] in *.
+  destruct dd as [|d0 dd]; [discriminate|].
+  pose proof (scan_time_good r5) as St. destruct (scan_time r5) as [[h mi] se].
+  intros [= <-]. unfold good_caps, good. cbn [c_year c_month c_day c_hour c_min c_sec].
+  destruct St as (G1 & G2 & G3). repeat split; try assumption; try discriminate.
+  intros ->. discriminate.
+Qed.
+
+Lemma find_date_good l : forall c, find_date l = Some c -> good_caps c.
+Proof.
+  induction l as [|x l IH]; intros c; cbn [find_date].
+  - destruct (match_at []) eqn:M; [|discriminate]. intros [= <-]. now apply (match_at_good []).
+  - destruct (match_at (x :: l)) eqn:M.
+    + intros [= <-]. now apply (match_at_good (x :: l)).
+    + apply IH.
+Qed.
+
+(* `cap[n].parse()` succeeds on every capture *)
+Lemma parse_dec_good n g : good n g -> parse_dec g = Some (dec_val g).
+Proof. intros (Hne & _ & F). now apply parse_dec_val. Qed.
+
+Lemma opt_field_good st g lo hi : good_opt g -> exists p, opt_field st g lo hi = Ok p.
+Proof.
+  unfold opt_field. destruct g as [ds|]; [|now eexists]. intros G.
+  rewrite (parse_dec_good 2 ds G). cbn [unwrap bind]. now eexists.
+Qed.
+
+(* the `Some(cap)` arm: a value or one of the two Err messages, never an unwrap failure *)
+Lemma eval_caps_outcome x c : good_caps c ->
+  (exists ab, eval_caps x c = Ok ab)
+  \/ eval_caps x c = Exit2 (msg_parse ++ x) \/ eval_caps x c = Exit2 (msg_convert ++ x).
+Proof.
+  intros (Gy & Gm & Gd & Gh & Gmi & Gs). unfold eval_caps.
+  rewrite (parse_dec_good _ _ Gy), (parse_dec_good _ _ Gm), (parse_dec_good _ _ Gd). cbn [unwrap bind].
+  destruct (opt_field_good site_hour _ 0 23 Gh) as [ph Eh]. rewrite Eh.
+  destruct (opt_field_good site_min _ 0 59 Gmi) as [pm Emi]. rewrite Emi.
+  destruct (opt_field_good site_sec _ 0 59 Gs) as [ps Es]. rewrite Es. cbn [bind].
+  destruct (valid_date _ _ _); [|right; right; reflexivity].
+  destruct (with_hms _ _ _ _); [|right; left; reflexivity].
+  destruct (with_hms _ _ _ _); [left; now eexists|right; left; reflexivity].
+Qed.
+
+(* For EVERY input (any code points, any clock) parse_datetime returns a value, returns one of
+   its two Err messages, or hands the text to chrono_english; the latter only for a text of at
+   least 5 bytes in which DATE_REGEX finds nothing. *)
+Theorem parse_datetime_outcomes : forall now x,
+  match parse_datetime now x with
+  | Unmodelled => find_date x = None /\ 5 <= byte_len x
+  | Det (Ok _) => True
+  | Det (Exit2 m) => m = msg_parse ++ x \/ m = msg_convert ++ x
+  | Det _ => False
+  end.
+Proof.
+  intros now x. unfold parse_datetime.
+  destruct (str_eqb x lit_today); [exact I|]. destruct (str_eqb x lit_yesterday); [exact I|].
+  destruct (find_date x) as [c|] eqn:F.
+  - destruct (eval_caps_outcome x c (find_date_good x c F)) as [[ab E]|[E|E]]; rewrite E; auto.
+  - destruct (5 <=? byte_len x) eqn:B; [split; [reflexivity|apply Z.leb_le; exact B]|].
+    destruct ((2 <=? byte_len x) && (starts_with [43%N] x || starts_with [45%N] x));
+      [destruct (parse_i64 x)|]; auto.
+Qed.
+
+(* the only outcomes are Det (Ok _), Det (Exit2 _) and Unmodelled *)
+Corollary parse_datetime_ok_err_or_unmodelled : forall now x,
+  match parse_datetime now x with
+  | Det (Ok _) | Det (Exit2 _) | Unmodelled => True
+  | _ => False
+  end.
+Proof.
+  intros now x. pose proof (parse_datetime_outcomes now x) as H.
+  destruct (parse_datetime now x) as [|[ab|m|st|st|]]; try exact I; exact H.
+Qed.
+
+Theorem parse_datetime_never_panics : forall now x,
+  match parse_datetime now x with Det (Panic _) => False | _ => True end.
+Proof.
+  intros now x. pose proof (parse_datetime_outcomes now x) as H.
+  destruct (parse_datetime now x) as [|[ab|m|st|st|]]; try exact I; exact H.
+Qed.
+
+(* composed with any chrono_english component that does not panic, parse_datetime does not *)
+Corollary parse_datetime_with_never_panics : forall ce now x,
+  (forall y, match ce y with Ok _ | Exit2 _ => True | _ => False end) ->
+  match parse_datetime_with ce now x with Ok _ | Exit2 _ => True | _ => False end.
+Proof.
+  intros ce now x Hce. unfold parse_datetime_with.
+  pose proof (parse_datetime_outcomes now x) as H.
+  destruct (parse_datetime now x) as [|[ab|m|st|st|]]; try exact I; try contradiction. apply Hce.
+Qed.
+
+(* Texts of fewer than 5 bytes: a signed integer is a day offset, everything else -- "+a", "-x",
+   "+1.5", "--1", non-ASCII digits -- is the Err of the final else branch. *)
+Lemma utf8_len1_pos c : 1 <= utf8_len1 c.
+Proof. unfold utf8_len1. destruct (_ <? _)%N; [lia|]. destruct (_ <? _)%N; [lia|]. destruct (_ <? _)%N; lia. Qed.
+
+Lemma length_le_byte_len l : Z.of_nat (length l) <= byte_len l.
+Proof.
+  induction l as [|c l IH]; [cbn; lia|]. cbn [length byte_len]. pose proof (utf8_len1_pos c). lia.
+Qed.
+
+Theorem short_input : forall now x, byte_len x < 5 ->
+  parse_datetime now x =
+  if (2 <=? byte_len x) && (starts_with [43%N] x || starts_with [45%N] x) then
+    match parse_i64 x with
+    | Some n => Det (Ok (day_interval (now + n)))
+    | None => Det (Exit2 (msg_parse ++ x))
+    end
+  else Det (Exit2 (msg_parse ++ x)).
+Proof.
+  intros now x Hb. unfold parse_datetime.
+  destruct (str_eqb x lit_today) eqn:K1.
+  { apply str_eqb_eq in K1. subst x. exfalso. revert Hb. vm_compute. discriminate. }
+  destruct (str_eqb x lit_yesterday) eqn:K2.
+  { apply str_eqb_eq in K2. subst x. exfalso. revert Hb. vm_compute. discriminate. }
+  rewrite find_date_short by (pose proof (length_le_byte_len x); lia).
+  destruct (Z.leb_spec 5 (byte_len x)); [lia|reflexivity].
+Qed.
+
+Corollary signed_not_a_number : forall now x,
+  byte_len x < 5 -> parse_i64 x = None -> parse_datetime now x = Det (Exit2 (msg_parse ++ x)).
+Proof.
+  intros now x Hb Hp. rewrite (short_input now x Hb), Hp.
+  destruct ((2 <=? byte_len x) && (starts_with [43%N] x || starts_with [45%N] x)); reflexivity.
+Qed.
+
+(* ------------------------------------------------------------------------- *)
 (* format_datetime / parse_datetime round trip                               *)
 (* ------------------------------------------------------------------------- *)
 
@@ -612,6 +796,22 @@ Proof.
 Qed.
 
 (* modified = '2024-02-29' selects exactly the files whose timestamp lies in the leap day *)
+(* the formerly panicking inputs *)
+Example nv_no_panic :
+  parse_datetime 19782 (s "+a") = Det (Exit2 (s "Error parsing date/time value: +a"))
+  /\ parse_datetime 19782 (s "-x") = Det (Exit2 (s "Error parsing date/time value: -x"))
+  /\ parse_datetime 19782 (s "+1.5") = Det (Exit2 (s "Error parsing date/time value: +1.5"))
+  /\ parse_datetime 19782 [0x661; 0x662]%N = Det (Exit2 (msg_parse ++ [0x661; 0x662]%N))
+  /\ parse_datetime 19782 [0x662; 0x660; 0x662; 0x663; 45; 0x661; 0x662; 45; 0x661; 0x661]%N = Unmodelled
+  /\ find_date [0x662; 0x660; 0x662; 0x663; 45; 0x661; 0x662; 45; 0x661; 0x661]%N = None
+  /\ parse_datetime 19782 (s "2023-12-11 " ++ [0x661]%N) = Det (Ok (1702252800, 1702339199)).
+Proof.
+  split; [apply signed_not_a_number; [reflexivity|reflexivity]|].
+  split; [apply signed_not_a_number; [reflexivity|reflexivity]|].
+  split; [apply signed_not_a_number; [reflexivity|reflexivity]|].
+  vm_compute. repeat split; reflexivity.
+Qed.
+
 Example nv_cmp :
   cmp_dt_spec OpEq 1709164800 1709164800 1709251199 = true
   /\ cmp_dt_spec OpEq 1709251199 1709164800 1709251199 = true
@@ -629,6 +829,12 @@ Print Assumptions interval_minute.
 Print Assumptions interval_second.
 Print Assumptions relative_days.
 Print Assumptions relative_signed.
+Print Assumptions parse_datetime_outcomes.
+Print Assumptions parse_datetime_ok_err_or_unmodelled.
+Print Assumptions parse_datetime_never_panics.
+Print Assumptions parse_datetime_with_never_panics.
+Print Assumptions short_input.
+Print Assumptions signed_not_a_number.
 Print Assumptions format_roundtrip.
 Print Assumptions format_roundtrip_secs.
 Print Assumptions trichotomy.
